@@ -1,6 +1,7 @@
 package main
 
 import (
+	"math"
 	"crypto/sha1"
 	"fmt"
 	"math/rand"
@@ -148,6 +149,11 @@ func c06(c *Ctx) {
 			if strings.HasPrefix(kind, "scale:") {
 				scaleIn = append(scaleIn, b)
 				scaleTag = append(scaleTag, kind)
+				if len(b) > 40000 {
+					// the largest members are timed below with a generous limit (the property allows a low-degree
+					// polynomial); the 4-second limit of the batch tie would call them hangs
+					continue
+				}
 			}
 			inputs = append(inputs, b)
 			tags = append(tags, kind)
@@ -192,7 +198,7 @@ func c06(c *Ctx) {
 		}
 		sizes := []int{70, 500}
 		if c.Thorough() {
-			sizes = []int{70, 500, 2000, 5000}
+			sizes = []int{70, 500, 2000}
 		}
 		for _, n := range sizes {
 			fam := gen.Scaling(n)
@@ -214,14 +220,44 @@ func c06(c *Ctx) {
 		defer p.Kill()
 		for i, in := range scaleIn {
 			t0 := time.Now()
-			_, err := p.Ask("C "+hx(in), 20*time.Second)
+			_, err := p.Ask("C "+hx(in), 90*time.Second)
 			if err == nil {
 				timing[scaleTag[i]] = time.Since(t0).Seconds()
 			} else {
 				timing[scaleTag[i]] = -1
+				c.fail("C06/no-return/"+scaleTag[i], fmt.Sprintf("no result within 90 s on the %d-byte member of a size-scaling family (%s)", len(in), scaleTag[i]), map[string]string{"family": scaleTag[i], "bytes": fmt.Sprint(len(in))})
+				p.Kill()
+				p = proc.New([]string{filepath.Join(c.Build, "worker")})
 			}
 		}
-		c.Rep.Supporting = map[string]any{"scaling_wall_s (implementation; -1 = no return within 20 s)": timing}
+		// growth between the two largest members of each family: a low-degree polynomial is allowed
+		type pt struct {
+			n int
+			t float64
+		}
+		fams := map[string][]pt{}
+		for k, t := range timing {
+			f := strings.Split(k, ":")
+			n := 0
+			fmt.Sscan(f[2], &n)
+			fams[f[1]] = append(fams[f[1]], pt{n, t})
+		}
+		growth := map[string]float64{}
+		for name, ps := range fams {
+			sort.Slice(ps, func(a, b int) bool { return ps[a].n < ps[b].n })
+			if len(ps) >= 2 {
+				a, b := ps[len(ps)-2], ps[len(ps)-1]
+				if a.t > 0.002 && b.t > 0 {
+					e := math.Log(b.t/a.t) / math.Log(float64(b.n)/float64(a.n))
+					growth[name] = e
+					if e > 3.6 {
+						c.fail("C06/superpolynomial/"+name, fmt.Sprintf("running time of family %s grows like n^%.1f between n=%d (%.3fs) and n=%d (%.3fs)", name, e, a.n, a.t, b.n, b.t), map[string]string{"family": name})
+					}
+				}
+			}
+		}
+		c.Rep.Notes = append(c.Rep.Notes, fmt.Sprintf("empirical growth exponents between the two largest members: %v", growth))
+		c.Rep.Supporting = map[string]any{"scaling_wall_s (implementation; -1 = no return within 90 s)": timing}
 	}
 }
 
